@@ -135,8 +135,14 @@ def run(case, ctx):
     sel = M.walk(pterm, doc)
     nsel = len(sel)
     D = valida.Data(doc)
-    for name, fn in (("get_data(raw)", lambda: p.get_data(doc, return_paths=rp)),
-                     ("Data.get(path)", lambda: D.get(p, return_paths=rp))):
+    import valida.datapath as DP_
+    entries = [("get_data(raw)", lambda: p.get_data(doc, return_paths=rp)),
+               ("Data.get(path)", lambda: D.get(p, return_paths=rp))]
+    if pterm["parts"] and all(q["p"] == "prim" for q in pterm["parts"]) and not pterm.get("datum") and not pterm.get("multi"):
+        prims = [q["v"] for q in pterm["parts"]]
+        entries.append(("Data.get(*primitives)", lambda: D.get(*prims, return_paths=rp)))
+        entries.append(("DataPath(*primitives).get_data", lambda: DP_.DataPath(*prims).get_data(doc, return_paths=rp)))
+    for name, fn in entries:
         ok, got = call(fn)
         if expect_raise:
             if ok:
